@@ -60,7 +60,9 @@ def quick_equal(a, b, timeout_ms=800):
 
 
 def _val(v):
-    if z3.is_rational_value(v) or z3.is_int_value(v):
+    if z3.is_int_value(v):            # IntNumRef has no as_fraction()
+        return [v.as_long(), 1]
+    if z3.is_rational_value(v):
         f = v.as_fraction()
         return [f.numerator, f.denominator]
     if z3.is_algebraic_value(v):
@@ -68,6 +70,8 @@ def _val(v):
         return [f.numerator, f.denominator]
     if z3.is_true(v) or z3.is_false(v):
         return bool(z3.is_true(v))
+    if z3.is_bv_value(v):             # unsigned bit-vector integers of symx.zint
+        return [v.as_long(), 1]
     return None
 
 
